@@ -33,6 +33,8 @@ pub fn main() {
     std::panic::set_hook(Box::new(|_| {}));
     let mut violations = 0;
     let mut executions = 0;
+    // Open known findings of this property are reported as such, not as violations.
+    let known: Vec<(String, String)> = crate::report::load_known().findings.into_iter().filter(|f| f.status == "open" && f.property == prop.id).map(|f| (f.rule, f.key)).collect();
     // C14 under Miri: only the isolated task-set scenarios (whole simulations with many models and
     // queries are too slow to interpret in the quick tier).
     let comp_only = prop.id == "C14" || prop.id == "C15";
@@ -81,6 +83,10 @@ pub fn main() {
         let mut g = Group::default();
         let viols = (prop.check)(&case, &out, &h, &mut g);
         executions += 1;
+        let (listed, viols): (Vec<_>, Vec<_>) = viols.into_iter().partition(|v| known.iter().any(|(r, k)| *r == v.rule && (k.is_empty() || *k == v.key)));
+        for v in &listed {
+            println!("KNOWN-FINDING: property={} rule={} key={} (E2 case {})", prop.id, v.rule, v.key, ci);
+        }
         for v in &viols {
             violations += 1;
             println!("violation: case={} rule={} key={} :: {}", ci, v.rule, v.key, v.detail);
